@@ -345,12 +345,17 @@ def mutate_solution(rng, prog, dump):
 def solve_one(hexe, text, timeout):
     """text: the RIDDLE source, or a list of sources read incrementally (each after a solve())."""
     paths = []
+    args = []
     for t in ([text] if isinstance(text, str) else text):
+        if t == "-pop":          # incremental use: pop to root level before the next read
+            args.append(t)
+            continue
         with tempfile.NamedTemporaryFile("w", suffix=".rddl", delete=False, dir=os.path.join(vlib.BUILD, "plan_tmp")) as f:
             f.write(t)
             paths.append(f.name)
+            args.append(f.name)
     t0 = time.time()
-    r = vlib.run([hexe] + paths, timeout=timeout)
+    r = vlib.run([hexe] + args, timeout=timeout)
     dt = time.time() - t0
     for p in paths:
         os.remove(p)
@@ -427,7 +432,7 @@ def shared_run(seed, tier, log=print):
         for k, (prog, text) in enumerate(plan_gen.directed_temporal()):
             cases.append(("tl-directed-%d" % k, prog, text, {"directed_temporal": 1}, "tl_directed"))
         for fam, gen in (("bd", plan_gen.directed_boundary), ("hier", plan_gen.directed_hierarchy), ("chain", plan_gen.directed_chain),
-                         ("narrow", plan_gen.directed_narrowing), ("both", plan_gen.directed_both), ("enums", plan_gen.directed_enums)):
+                         ("narrow", plan_gen.directed_narrowing), ("both", plan_gen.directed_both), ("enums", plan_gen.directed_enums), ("assign", plan_gen.directed_assign)):
             for k, (prog, text) in enumerate(gen()):
                 cases.append(("%s-%d" % (fam, k), prog, text, {"directed_" + fam: 1}, fam))
         for k, (prog, texts) in enumerate(plan_gen.directed_incremental()):
